@@ -120,6 +120,41 @@ def _load_chunk(args):
     return res
 
 
+class MemoisedRules:
+    """Diagnosis only: Rule.lparse wrapped at run time with a memo per (rule, source, start).  If a slow case becomes fast
+    under this wrapper, its cost is attributable to the known call-site defect F14 (Rule.lparse is not memoised, so recursion
+    that does not pass through a Repetition re-evaluates the same (rule, offset) exponentially often)."""
+
+    def __init__(self, P):
+        self.P = P
+
+    def __enter__(self):
+        P = self.P
+        self.orig = orig = P.Rule.lparse
+        memo = {}
+
+        def lp(rule, source, start):
+            key = (id(rule), source, start)
+            if key not in memo:
+                try:
+                    memo[key] = list(orig(rule, source, start))
+                except P.ParseError as e:
+                    memo[key] = e
+            r = memo[key]
+            if isinstance(r, Exception):
+                raise r
+            yield from r
+
+        P.Rule.lparse = lp
+        return self
+
+    def __exit__(self, *a):
+        self.P.Rule.lparse = self.orig
+
+
+F14_KEY = "work:Rule.lparse-not-memoised"
+F14_FAMILY = (['r = "a" r r / "a"'], "r", "a", "")
+
 WORK_GRAMMARS = [
     # (rules as ABNF text, start rule, unit of input repeated n times, tail)
     (['expr = term "+" expr / term', "term = number / ident", "number = 1*DIGIT", "ident = 1*( ALPHA / DIGIT )"], "expr", "1+", "1"),
@@ -128,6 +163,23 @@ WORK_GRAMMARS = [
     (['l = item *( "," item )', 'item = word / word "=" word', "word = 1*ALPHA / 1*( ALPHA / DIGIT )"], "l", "ab=c1,", "z"),
     (['n = [ n1 ] [ n1 ] [ n1 ] "b"', 'n1 = *"a" / 1*"a"'], "n", "a", "b"),
 ]
+
+
+def series_for(P, counter, texts, start, unit, tail, sizes):
+    cls = type("Wf", (P.Rule,), {})
+    for t in texts:
+        cls.create(t)
+    series = []
+    for n in sizes:
+        src = unit * n + (")" * n if "(" in unit else tail)
+        P.ParseCache.clear_caches()
+        counter["yield"] = counter["calls"] = 0
+        try:
+            cls(start).parse(src, 0)
+        except P.ParseError:
+            pass
+        series.append((len(src), counter["calls"], counter["yield"]))
+    return series
 
 
 def work_probe(P):
@@ -178,6 +230,36 @@ def run(ctx):
     found = False
     rep = 0
     work, over = work_probe(P)
+    # the known finding F14, identified by its call site and confirmed by diagnosis on every run
+    cnt = {"yield": 0, "calls": 0}
+    origl = P.Rule.lparse
+
+    def counted(self, source, start):
+        cnt["calls"] += 1
+        for m in origl(self, source, start):
+            cnt["yield"] += 1
+            yield m
+    P.Rule.lparse = counted
+    try:
+        f14_plain = series_for(P, cnt, *F14_FAMILY, sizes=(8, 12, 16))
+    finally:
+        P.Rule.lparse = origl
+    f14_ratio = [f14_plain[k + 1][1] / max(1, f14_plain[k][1]) for k in range(2)]
+    with MemoisedRules(P):
+        import time as _t
+        t0 = _t.time()
+        clsm = type("Wm", (P.Rule,), {})
+        clsm.create(F14_FAMILY[0][0])
+        clsm("r").parse("a" * 40, 0)
+        f14_memo_s = _t.time() - t0
+    if f14_ratio[-1] > (16 / 12) ** 5:   # faster than n^5 between |s| = 12 and |s| = 16
+        if f14_memo_s < 5:
+            ctx.report("work is exponential on r = \"a\" r r / \"a\" (Rule.lparse calls for |s| = 8, 12, 16: %s) because Rule.lparse is not memoised"
+                       % [x[1] for x in f14_plain], {"kind": "work-known", "series": f14_plain, "with_memo_40_chars_s": f14_memo_s}, key=F14_KEY)
+        else:
+            found = True
+            ctx.report("work is exponential on r = \"a\" r r / \"a\" and memoising Rule.lparse does not help", {"kind": "work", "series": f14_plain},
+                       key="work:f14-family-other-cause")
     for w in work:
         if max(w["ratio"]) > 16.5:
             found = True
@@ -205,6 +287,20 @@ def run(ctx):
                 rep += 1
                 ctx.report("outcome class differs: source=%s offset=%d implementation=%r model=%r" % (d["source_repr"], d["offset"], d["implementation"][:60], d["model"][:60]),
                            {"kind": "engine", "mode": "ends", **d}, key="engine:" + lib.digest([d["grammar"], d["source"], d["offset"]]))
+    # cases on which the real code did not answer within the CPU budget: diagnose
+    for d in info.get("slow", [])[:5]:
+        s_ = "".join(chr(c) for c in d["source"])
+        with MemoisedRules(P):
+            cls_, rules_ = ec.G.build(P, [tuple(r) for r in d["grammar"]])
+            res = ec.with_budget(ec.CASE_BUDGET_S, lambda: lib.py_lparse(P, rules_[0], s_, d["offset"], full=False), "slow")
+        if res != "slow":
+            ctx.report("no answer within %.0f s CPU for %r at %d on a generated grammar; fast once Rule.lparse is memoised" % (ec.CASE_BUDGET_S, s_, d["offset"]),
+                       {"kind": "work-known", **d}, key=F14_KEY)
+        else:
+            found = True
+            rep += 1
+            ctx.report("no answer within %.0f s CPU for %r at %d, also with Rule.lparse memoised" % (ec.CASE_BUDGET_S, s_, d["offset"]),
+                       {"kind": "engine-slow", "mode": "ends", **d}, key="slow:" + lib.digest([d["grammar"], d["source"], d["offset"]]))
     # (b) load atomicity
     n = ctx.budget(320, 6000)
     chunks = 32
@@ -234,7 +330,7 @@ def run(ctx):
                 "look-alikes x every offset; (b) valid rule/rulelist texts corrupted 0-2 times at random positions, loaded via create / load_grammar strict / non-strict; "
                 "non-trivial = (a) >= 2 ends or failure before end of input, (b) text rejected by the reader model",
         "samples": info["samples"][:2] + samples, "engine_stats": st, "load_outcomes": {str(k): v for k, v in kinds.items()},
-        "outcome_class_disagreements": classes_bad, "disagreements_model_vs_impl": len(dis), "work_probe": work,
+        "outcome_class_disagreements": classes_bad, "disagreements_model_vs_impl": len(dis), "work_probe": work, "f14_series": f14_plain, "f14_with_memo_s": round(f14_memo_s, 3), "slow_cases": len(info.get("slow", [])),
     })
     ctx.assumptions.append("the polynomial work bound is not claimed as a theorem; the Python recursion limit is a resource limit outside the model")
     cc.conclude(ctx, len(dis), found)
